@@ -250,7 +250,7 @@ def check(run: lib.Run, audit: dict) -> int:
     ok, detail = lib.run_obligation("C09_shape")
     run.obligation("C09_shape: ShapeOk Generated.guardEvalMiss/Hit/SetPolicy", ok, detail if not ok else "discharged")
     run.extra["traced_programs"] = audit["facts"].get("guard_programs")
-    run_cases(run, audit)
+    run_cases(run, audit, scale=run.boost)
     violations = []
     if (run.disagreements or not ok) and not run.spec_failures:
         run_cases(run, audit, scale=6)
